@@ -45,7 +45,7 @@ func c07Raw(thorough bool) *explore.Scenario {
 			hellos := c34Corpus()
 			src := hellos[x.Choose("hello", len(hellos))]
 			kind := x.Choose("kind", 4) // 0 intact, 1 byte value, 2 truncation, 3 extension body truncated with fixed prefixes
-			flags := x.Choose("flags", 4)
+			flags := x.Choose("flags", 8) // AllowBluntMimicry, RealPSKResumption, AlwaysAddPadding
 			msg := src.msg
 			var in []byte
 			desc := "intact"
@@ -89,7 +89,7 @@ func c07Raw(thorough bool) *explore.Scenario {
 			what := fmt.Sprintf("%s %s flags=%d", src.name, desc, flags)
 			var spec *tls.ClientHelloSpec
 			var err error
-			f := tls.Fingerprinter{AllowBluntMimicry: flags&1 != 0, RealPSKResumption: flags&2 != 0}
+			f := tls.Fingerprinter{AllowBluntMimicry: flags&1 != 0, RealPSKResumption: flags&2 != 0, AlwaysAddPadding: flags&4 != 0}
 			if pm := catch(func() { spec, err = f.FingerprintClientHello(in) }); pm != "" {
 				r.Violate(fmt.Sprintf("C07|raw|panic|kind=%d|%s", kind, errClass(fmt.Errorf("%s", pm))), "%s: FingerprintClientHello panicked: %s", what, truncStr(pm, 300))
 				return
@@ -427,7 +427,7 @@ func c07Scenarios(thorough bool) []*explore.Scenario {
 func init() {
 	register(&Prop{ID: "C07", Level: "exploration", Variant: "A", Scenarios: c07Scenarios,
 		Run: func(c *explore.Check, thorough bool) {
-			c.Rule = "small-scope exhaustive edits of seed inputs. Raw: every corpus ClientHello (all IDs, custom, ECH outer, PSK) x {intact, every byte position x value menu, record truncated to every length, every extension body truncated with fixed prefixes} x 4 flag sets through FingerprintClientHello and FromRaw; extension Write on every body prefix and every byte x 4 values for every extension value of the C08 table; JSON: the repository's 4 documents + renderings of corpus hellos x {every subset of the 3 top-level keys x 7 retypings, every extension-object field removed / retyped, text truncated}; tlsfingerprint maps derived from every corpus hello x {intact, each key removed, each value truncated to 0..8 bytes, extended by 1..3 bytes}. Oracle: no panic (watchdog 60 s); a returned spec (and always for strictly valid inputs) must ApplyPreset + BuildHandshakeState without panicking. distinct = case"
+			c.Rule = "small-scope exhaustive edits of seed inputs. Raw: every corpus ClientHello (all IDs, custom, ECH outer, PSK) x {intact, every byte position x value menu, record truncated to every length, every extension body truncated with fixed prefixes} x all 8 Fingerprinter flag sets through FingerprintClientHello (and FromRaw); extension Write on every body prefix and every byte x 4 values for every extension value of the C08 table; JSON: the repository's 4 documents + renderings of corpus hellos x {every subset of the 3 top-level keys x 7 retypings, every extension-object field removed / retyped, text truncated}; tlsfingerprint maps derived from every corpus hello x {intact, each key removed, each value truncated to 0..8 bytes, extended by 1..3 bytes}. Oracle: no panic (watchdog 60 s); a returned spec (and always for strictly valid inputs) must ApplyPreset + BuildHandshakeState without panicking. distinct = case"
 			c.Assumptions = []string{"model checking cannot quantify over arbitrary bytes: the claim is the small-scope one (single edits from fixed menus on valid seeds)"}
 			runAll(c, c07Scenarios(thorough), 0)
 			c.Gate(c.Total.Counters["specs_returned"] > 5000, "non-vacuity: %d specs returned", c.Total.Counters["specs_returned"])
